@@ -292,9 +292,14 @@ def rule_flow_admit_sums(ctx):
                     if tag == 1 and not skipped_dirty:
                         hits.append((e, res))
             # recorded: pushed to a node list, or handed to the caller's visitor (an `FnMut(node)` parameter)
+            def _is_node(a_):
+                while isinstance(a_, tuple) and a_ and a_[0] == 'payload':
+                    a_ = a_[1]
+                return isinstance(a_, tuple) and a_ and a_[0] == 'call' and (a_[1] in R.front or a_[1] in R.succ)
             pushes = [e for e in p.events if e[0] == 'call' and (str(e[1]).endswith('::push') or
                                                                   ((e[1] == 'callback' or str(e[1]).endswith(('::call_mut', '::call'))) and e[2] and
-                                                                   isinstance(e[2][0], tuple) and e[2][0] and e[2][0][0] == 'param'))]
+                                                                   isinstance(e[2][0], tuple) and e[2][0] and e[2][0][0] == 'param' and
+                                                                   any(_is_node(y) for a_ in e[2][1:] for y in ([a_] + (list(a_[1]) if isinstance(a_, tuple) and a_ and a_[0] == 'tuple' else [])))))]
             agg = row['agg']
             if agg is None:
                 raise CheckFailure('FLOW-admit-sums: victims accumulator not found in %s' % nid)
@@ -310,7 +315,9 @@ def rule_flow_admit_sums(ctx):
             # every frequency atom: + frequency(sketch, hash of a victim node)
             for s_, a in fatoms:
                 a0 = strip_cast(a)
-                okf = s_ == 1 and isinstance(a0, tuple) and a0[0] == 'call' and a0[1] in R.sketch_write | {x for x in prog.bodies if x.endswith('FrequencySketch::frequency')} and \
+                freq_fns = R.sketch_write | {x for x in prog.bodies if x.endswith('FrequencySketch::frequency')}
+                is_est = isinstance(a0, tuple) and a0[0] == 'call' and (a0[1] in freq_fns or _is_estimator_param(ctx, nid, a0, freq_fns))
+                okf = s_ == 1 and is_est and \
                     any(isinstance(x, tuple) and x and ((x[0] == 'fld' and x[2] == 'hash') or (x[0] == 'call' and str(x[1]).endswith('::hash'))) and
                         any(isinstance(y, tuple) and y and y[0] == 'fld' and y[2] == 'element' for y in subterms(x)) for x in subterms(a0))
                 if not okf:
@@ -391,8 +398,12 @@ def rule_admission_outcomes(ctx):
             raise CheckFailure('MUST-admit-or-remove: weight parameter of %s not found' % nid)
         W = wp[0]
         remove_set = HASHMAP_REMOVE if kind == 'unsync' else DASHMAP_REMOVE
-        paths = [p for p in _run(ctx, nid, inline_depth=3, loop_visits=2,
-                                 inline_pred=lambda n_, bb, d: False if ('handle_remove' in n_) else None) if not p.diverged]
+        # helpers of the handler that lead to the admission scan are part of the handler (a loop in them does not make them opaque)
+        adm_fns = {a_ for a_, _k in admits(ctx)}
+        leads = {x for x in prog.reachable_from([nid]) if x != nid and x not in adm_fns and prog.bodies[x].kind != 'closure' and
+                 (prog.reachable_from([x]) & adm_fns) and x.startswith(kind + '::')}
+        paths = [p for p in _run(ctx, nid, inline_depth=3 + min(len(leads), 2), loop_visits=2,
+                                 inline_pred=lambda n_, bb, d, _l=frozenset(leads): False if ('handle_remove' in n_) else (True if n_ in _l else None)) if not p.diverged]
         n = 0
         for p in paths:
             lits = _ordered_literals(p)
@@ -486,19 +497,51 @@ def rule_admission_outcomes(ctx):
     return r
 
 
-def _is_capacity(ctx, r, nid, t):
-    """Is term `t` (inside role function nid) the configured capacity: the max_capacity field itself, or the payload of an Option<u64>
-    parameter that every call site fills with the max_capacity field."""
-    if has_field(t, ('max_capacity',)):
+def _is_estimator_param(ctx, nid, t, freq_fns):
+    """`t` is a call of a function-typed parameter of nid (`estimate: impl Fn(u64) -> u8`), and every caller passes a closure that returns the
+    sketch's frequency of exactly the hash it is given."""
+    if not (t[1] == 'callback' or str(t[1]).endswith(('::call', '::call_mut', '::call_once'))) or not t[2]:
+        return False
+    f0 = t[2][0]
+    if not (isinstance(f0, tuple) and f0 and f0[0] == 'param'):
+        return False
+    key = ('estimator-param', nid, f0[1])
+    if key not in ctx.cache:
+        prog = ctx.prog
+        ok, sites = True, 0
+        for c_ in sorted(prog.callers().get(nid, ())):
+            bc = prog.bodies[c_]
+            for bi_, t_ in bc.calls():
+                if nid not in prog.call_targets(bc, t_)[0] or f0[1] - 1 >= len(t_['args']):
+                    continue
+                sites += 1
+                clos = prog.closure_of_operand(bc, t_['args'][f0[1] - 1])
+                good = False
+                for cl in clos:
+                    try:
+                        ps = [q for q in ctx.symex(inline_depth=1, loop_visits=2).run(cl) if not q.diverged]
+                    except PathLimit:
+                        ps = []
+                    good = bool(ps) and all(isinstance(q.ret, tuple) and q.ret and q.ret[0] == 'call' and q.ret[1] in freq_fns and
+                                            any(isinstance(a_, tuple) and a_ and a_[0] == 'param' for a_ in q.ret[2][1:]) for q in ps)
+                ok = ok and good
+        ctx.cache[key] = ok and sites > 0
+    return ctx.cache[key]
+
+
+def _is_capacity(ctx, r, nid, t, field='max_capacity'):
+    """Is term `t` (inside role function nid) the configured capacity (resp. the weighted size): the field itself, or (the payload of) a
+    parameter that every call site fills with that field."""
+    if has_field(t, (field,)):
         return True
     prog = ctx.prog
     b = prog.bodies[nid]
     t0 = strip_cast(t)
     while isinstance(t0, tuple) and t0 and t0[0] == 'payload':
         t0 = t0[1]
-    if not (isinstance(t0, tuple) and t0 and t0[0] == 'param' and b.local_ty(t0[1])['s'] == 'std::option::Option<u64>'):
+    if not (isinstance(t0, tuple) and t0 and t0[0] == 'param' and b.local_ty(t0[1])['s'].lstrip('&') == ('std::option::Option<u64>' if field == 'max_capacity' else 'u64')):
         return False
-    key = ('cap-param', nid, t0[1])
+    key = ('cap-param', nid, t0[1], field)
     if key not in ctx.cache:
         ok, sites = True, 0
         for c in sorted(prog.callers().get(nid, ())):
@@ -511,10 +554,10 @@ def _is_capacity(ctx, r, nid, t):
                 for e in p.events:
                     if e[0] == 'call' and e[1] == nid and len(e[2]) >= t0[1]:
                         sites += 1
-                        if not has_field(e[2][t0[1] - 1], ('max_capacity',)):
+                        if not has_field(e[2][t0[1] - 1], (field,)):
                             ok = False
-                            r.violate(root, 'capacity-argument', nid.split('::')[-1], '%s hands `%s` to %s as the capacity: not the configured max_capacity' % (
-                                root, fmt(e[2][t0[1] - 1])[:60], nid), where=ctx.where(root, e[3]), expected='self.max_capacity')
+                            r.violate(root, 'capacity-argument', nid.split('::')[-1] + ':' + field, '%s hands `%s` to %s as the %s: not the cache\'s %s' % (
+                                root, fmt(e[2][t0[1] - 1])[:60], nid, 'capacity' if field == 'max_capacity' else 'current size', field), where=ctx.where(root, e[3]), expected='self.' + field)
         r.instance(function=nid, capacity_from_parameter=t0[1], call_sites_checked=sites, ok=ok and sites > 0)
         ctx.cache[key] = ok and sites > 0
     return ctx.cache[key]
@@ -605,7 +648,7 @@ def rule_cmp_evict(ctx):
             ret = p.ret
             if ret == ('c', 0):
                 continue
-            ok = isinstance(ret, tuple) and ret[0] == 'bin' and ret[1] == 'saturating_sub' and has_field(ret[2], ('weighted_size',)) and _is_capacity(ctx, r, nid, ret[3])
+            ok = isinstance(ret, tuple) and ret[0] == 'bin' and ret[1] == 'saturating_sub' and _is_capacity(ctx, r, nid, ret[2], 'weighted_size') and _is_capacity(ctx, r, nid, ret[3])
             r.instance(function=nid, returns=fmt(ret), ok=ok)
             if not ok:
                 r.violate(nid, 'weights-to-evict', fmt(ret)[:50], 'weights_to_evict is `%s`' % fmt(ret), where=ctx.where(nid), expected='weighted_size.saturating_sub(max_capacity)')
@@ -636,6 +679,9 @@ def rule_cmp_evict(ctx):
     if R.maintenance:
         WTE, EVL = named(ctx, 'sync.weights_to_evict'), named(ctx, 'sync.evict_lru')
         EXP = named(ctx, 'sync.evict_expired')
+        # (thin wrappers around the role count as the role)
+        wte_like = {WTE} | {n_ for n_, b_ in prog.bodies.items() if b_.kind != 'closure' and b_.locals[0]['ty']['s'] == 'u64' and len(b_.blocks) <= 25 and
+                            WTE in prog.reachable_from([n_]) and not any(e_[0] == 'write' for e_ in ctx.eff.transitive(n_))}
         for m in sorted(R.maintenance):
             # helpers of the run that lead to the eviction / expiry steps are part of the run
             leads = {x for x in prog.reachable_from([m]) if x not in (m, EVL, EXP, WTE) and prog.bodies[x].kind != 'closure' and x.startswith('sync::') and
@@ -654,19 +700,19 @@ def rule_cmp_evict(ctx):
                 guard = None
                 for t, v in _ordered_literals(p):
                     if isinstance(t, tuple) and t[0] == 'cmp' and t[1] == 'le' and (
-                            (t[3] == ('c', 0) and (has_call(t[2], (WTE,)) or 'saturating_sub' in fmt(t[2]))) or
+                            (t[3] == ('c', 0) and (has_call(t[2], tuple(wte_like)) or 'saturating_sub' in fmt(t[2]))) or
                             (t[2] == ('c', 0) and False)):
                         guard = (not v)     # le(wte, 0) == False  <=> wte > 0
-                    if isinstance(t, tuple) and t[0] == 'cmp' and t[1] == 'le' and t[2] == ('c', 1) and (has_call(t[3], (WTE,)) or 'saturating_sub' in fmt(t[3])):
+                    if isinstance(t, tuple) and t[0] == 'cmp' and t[1] == 'le' and t[2] == ('c', 1) and (has_call(t[3], tuple(wte_like)) or 'saturating_sub' in fmt(t[3])):
                         guard = v
                 called = any(e[0] == 'call' and str(e[1]) == EVL for e in p.events)
                 # freshness: the excess handed to the eviction is computed after everything else that changes the run counters
                 ev_i = [i for i, e in enumerate(p.events) if e[0] == 'call' and str(e[1]) == EVL]
                 if ev_i:
                     ev = p.events[ev_i[0]]
-                    excess = [a for a in ev[2] if has_call(a, (WTE,)) or 'saturating_sub' in fmt(a)]
-                    wte_i = [i for i, e in enumerate(p.events[:ev_i[0]]) if e[0] == 'call' and str(e[1]) == WTE]
-                    mut_i = [i for i, e in enumerate(p.events[:ev_i[0]]) if e[0] == 'call' and e[1] in prog.bodies and str(e[1]) != WTE and
+                    excess = [a for a in ev[2] if has_call(a, tuple(wte_like)) or 'saturating_sub' in fmt(a)]
+                    wte_i = [i for i, e in enumerate(p.events[:ev_i[0]]) if e[0] == 'call' and e[1] in wte_like]
+                    mut_i = [i for i, e in enumerate(p.events[:ev_i[0]]) if e[0] == 'call' and e[1] in prog.bodies and e[1] not in wte_like and
                              any('EvictionCounters' in l['ty']['s'] and l['ty']['s'].startswith('&mut') for l in prog.bodies[e[1]].locals[1:prog.bodies[e[1]].argc + 1])]
                     fresh = bool(wte_i) and (not mut_i or max(wte_i) > max(mut_i))
                     r.instance(function=m, excess_computed_after_last_counter_change=fresh)
